@@ -2399,7 +2399,8 @@ func generatePrefixStringTemplate(scope *parser.Scope) string {
 	}
 	template := "String.format(\""
 	template += scope.Prefix.Template("%s")
-	template += globals.TopicDelimiter + "\", "
+	// the delimiter is part of a String.format template here
+	template += strings.Replace(globals.TopicDelimiter, "%", "%%", -1) + "\", "
 	prefix := ""
 	for _, variable := range scope.Prefix.Variables {
 		template += prefix + variable
